@@ -7,7 +7,9 @@ R-C08.1  the analyses feeding it satisfy the C09 obligations (re-checked here) a
          check_nested_func_def / check_modified_block; the set of locals
          (`assigned_somewhere`) is built from *all* blocks, reachable or not (Python scoping
          ignores branch conditions).
-R-C08.2  both 'not defined' decision points of check_bb are the same predicate:
+R-C08.2  (with R-C08.3) `check_bb` is interpreted as a whole with recorder tokens on every combination of the membership facts it
+         tests, for the entry block and for real and never-taken successor edges (c08_checkbb.py); the truth-table form of
+         the two raise conditions below is the fallback.  Both 'not defined' decision points are the same predicate:
          entry block:   raise iff  not assigned-before and (local or (not global and not generic))
          along an edge: raise iff  (local and not in scope) or (not local and not global and not generic)
          (truth tables over the membership atoms).
@@ -125,57 +127,60 @@ def run(ctx: Ctx) -> None:
                   "liveness/assignment results are read before (or without) running the analyses for this CFG")
 
     # ------------------------------------------------------------ R-C08.2 the two predicates
-    cb = idx.find_func("check_bb", CC)
-    ctx.saw("functions", cb.qualname)
-    entry_if = next((n for n in cb.node.body if isinstance(n, ast.If) and "entry_bb" in ast.unparse(n.test)), None)
-    edge_loop = next((n for n in cb.node.body if isinstance(n, ast.For) and "successors" in ast.unparse(n.iter)), None)
-    if entry_if is None or edge_loop is None:
-        raise AnalysisError("check_bb: entry check or successor loop vanished")
-    # entry predicate
-    raises = [r for r in ast.walk(entry_if) if isinstance(r, ast.Raise)]
-    atoms = ["ass", "local", "glob", "gen"]
-    try:
-        # `continue` on assigned-before is an early exit inside the for loop: lexical_guards handles it
-        inner_for = next(n for n in ast.walk(entry_if) if isinstance(n, ast.For))
-        tbl = raise_table(inner_for, raises, atoms)
-        bad = []
-        for vals, got in tbl.items():
-            e = dict(zip(atoms, vals))
-            want = (not e["ass"]) and (e["local"] or (not e["glob"] and not e["gen"]))
-            if got != want:
-                bad.append({**e, "raises": got, "should": want})
-        ctx.check(not bad, "R-C08.2", f"{cb.qualname}#entry-block-predicate", f"{cb.module.rel}:{entry_if.lineno}", {"rows": len(tbl), "counterexamples": bad[:4]},
-                  "in the first block of a function a read of a not-yet-assigned local is accepted (resolved to a global) or a defined one rejected")
-    except (booltab.Unsupported, StopIteration, KeyError) as e:
-        ctx.undecided("R-C08.2", f"{cb.qualname}#entry-block-predicate", cb.where, f"{type(e).__name__}: {e}")
-    # edge predicate
-    raises = [r for r in ast.walk(edge_loop) if isinstance(r, ast.Raise)]
-    atoms = ["local", "scope", "glob", "gen"]
-    try:
-        inner = next(n for n in ast.walk(edge_loop) if isinstance(n, ast.For) and n is not edge_loop)
-        tbl = raise_table(inner, raises, atoms)
-        bad = []
-        for vals, got in tbl.items():
-            e = dict(zip(atoms, vals))
-            want = (e["local"] and not e["scope"]) or ((not e["local"]) and not e["glob"] and not e["gen"])
-            if got != want:
-                bad.append({**e, "raises": got, "should": want})
-        ctx.check(not bad, "R-C08.2", f"{cb.qualname}#edge-predicate", f"{cb.module.rel}:{edge_loop.lineno}", {"rows": len(tbl), "counterexamples": bad[:4]},
-                  "a variable that a successor needs and that is not assigned on this path is accepted, or an assigned one rejected")
-    except (booltab.Unsupported, StopIteration, KeyError) as e:
-        ctx.undecided("R-C08.2", f"{cb.qualname}#edge-predicate", cb.where, f"{type(e).__name__}: {e}")
-    # the variables examined along an edge are exactly those live before the successor
-    inner = [n for n in ast.walk(edge_loop) if isinstance(n, ast.For) and n is not edge_loop]
-    ok = bool(inner) and "live_before" in ast.unparse(inner[0].iter) and dotted(edge_loop.target) in ast.unparse(inner[0].iter)
-    ctx.check(ok, "R-C08.2", f"{cb.qualname}#examines-live-variables-of-successor", cb.where, {"iterates": ast.unparse(inner[0].iter) if inner else None},
-              "the variables checked along an edge are not the ones live at the successor")
+    from . import c08_checkbb
+    if not c08_checkbb.run(ctx):
+        # fallback (check_bb not interpretable): truth tables of the raise conditions inside the two loops, loop completeness by shape
+        cb = idx.find_func("check_bb", CC)
+        ctx.saw("functions", cb.qualname)
+        entry_if = next((n for n in cb.node.body if isinstance(n, ast.If) and "entry_bb" in ast.unparse(n.test)), None)
+        edge_loop = next((n for n in cb.node.body if isinstance(n, ast.For) and "successors" in ast.unparse(n.iter)), None)
+        if entry_if is None or edge_loop is None:
+            raise AnalysisError("check_bb: entry check or successor loop vanished")
+        # entry predicate
+        raises = [r for r in ast.walk(entry_if) if isinstance(r, ast.Raise)]
+        atoms = ["ass", "local", "glob", "gen"]
+        try:
+            # `continue` on assigned-before is an early exit inside the for loop: lexical_guards handles it
+            inner_for = next(n for n in ast.walk(entry_if) if isinstance(n, ast.For))
+            tbl = raise_table(inner_for, raises, atoms)
+            bad = []
+            for vals, got in tbl.items():
+                e = dict(zip(atoms, vals))
+                want = (not e["ass"]) and (e["local"] or (not e["glob"] and not e["gen"]))
+                if got != want:
+                    bad.append({**e, "raises": got, "should": want})
+            ctx.check(not bad, "R-C08.2", f"{cb.qualname}#entry-block-predicate", f"{cb.module.rel}:{entry_if.lineno}", {"rows": len(tbl), "counterexamples": bad[:4]},
+                      "in the first block of a function a read of a not-yet-assigned local is accepted (resolved to a global) or a defined one rejected")
+        except (booltab.Unsupported, StopIteration, KeyError) as e:
+            ctx.undecided("R-C08.2", f"{cb.qualname}#entry-block-predicate", cb.where, f"{type(e).__name__}: {e}")
+        # edge predicate
+        raises = [r for r in ast.walk(edge_loop) if isinstance(r, ast.Raise)]
+        atoms = ["local", "scope", "glob", "gen"]
+        try:
+            inner = next(n for n in ast.walk(edge_loop) if isinstance(n, ast.For) and n is not edge_loop)
+            tbl = raise_table(inner, raises, atoms)
+            bad = []
+            for vals, got in tbl.items():
+                e = dict(zip(atoms, vals))
+                want = (e["local"] and not e["scope"]) or ((not e["local"]) and not e["glob"] and not e["gen"])
+                if got != want:
+                    bad.append({**e, "raises": got, "should": want})
+            ctx.check(not bad, "R-C08.2", f"{cb.qualname}#edge-predicate", f"{cb.module.rel}:{edge_loop.lineno}", {"rows": len(tbl), "counterexamples": bad[:4]},
+                      "a variable that a successor needs and that is not assigned on this path is accepted, or an assigned one rejected")
+        except (booltab.Unsupported, StopIteration, KeyError) as e:
+            ctx.undecided("R-C08.2", f"{cb.qualname}#edge-predicate", cb.where, f"{type(e).__name__}: {e}")
+        # the variables examined along an edge are exactly those live before the successor
+        inner = [n for n in ast.walk(edge_loop) if isinstance(n, ast.For) and n is not edge_loop]
+        ok = bool(inner) and "live_before" in ast.unparse(inner[0].iter) and dotted(edge_loop.target) in ast.unparse(inner[0].iter)
+        ctx.check(ok, "R-C08.2", f"{cb.qualname}#examines-live-variables-of-successor", cb.where, {"iterates": ast.unparse(inner[0].iter) if inner else None},
+                  "the variables checked along an edge are not the ones live at the successor")
 
-    # ------------------------------------------------------------ R-C08.3 every edge
-    it = ast.unparse(edge_loop.iter)
-    exits = [n for st in edge_loop.body for n in walk_no_nested(st) if isinstance(n, (ast.Break, ast.Return))]
-    ctx.check("bb.successors" in it and "bb.dummy_successors" in it and not exits, "R-C08.3", f"{cb.qualname}#all-successor-edges", f"{cb.module.rel}:{edge_loop.lineno}",
-              {"iterates": it, "early_exits": len(exits)},
-              "a control-flow edge (e.g. into statically dead code) is not checked for undefined variables")
+        # ------------------------------------------------------------ R-C08.3 every edge
+        it = ast.unparse(edge_loop.iter)
+        exits = [n for st in edge_loop.body for n in walk_no_nested(st) if isinstance(n, (ast.Break, ast.Return))]
+        ctx.check("bb.successors" in it and "bb.dummy_successors" in it and not exits, "R-C08.3", f"{cb.qualname}#all-successor-edges", f"{cb.module.rel}:{edge_loop.lineno}",
+                  {"iterates": it, "early_exits": len(exits)},
+                  "a control-flow edge (e.g. into statically dead code) is not checked for undefined variables")
 
     # ------------------------------------------------------------ R-C08.4 CFG construction
     vs = idx.method("CFGBuilder", "visit_stmts", "guppylang_internals.cfg.builder")
